@@ -780,6 +780,8 @@ class Interp:
             return list(v)
         if isinstance(v, (enumerate, zip, reversed, map, filter)) or hasattr(v, '__next__'):
             return v
+        if type(v).__name__ in ('dict_items', 'dict_keys', 'dict_values'):
+            return list(v)
         if isinstance(v, Lazy):
             raise Unsupported(v.why)
         raise Unsupported('iteration over %s at %s' % (type(v).__name__, self.here(node, frame)))
